@@ -99,6 +99,17 @@ TABLE = [
      "documented errors may be raised. tgBoundariesToZeroCrossings and audioSplice are checked for kept labels/counts/order, the "
      "single new interval and audio/text durations agreeing within one sample.",
      _NOTE, "DESIGN.md section 3 C18"),
+    ("C19", "Hypothesis generated KlattGrids / point objects rendered by an independent writer; round-trip, fixed-point and independent number-tokenizer oracles; metamorphic check of value modifications",
+     "Synthetic KlattGrids (1-5 formants, 0-5 points per sub-tier, integer / 17-digit / tiny / huge / negative values) and the "
+     "reference file are opened, saved and reopened: every in-memory number must equal the file's free-standing numbers (independent "
+     "tokenizer) bit-for-bit, the reopened object must be identical and the written form a fixed point; modifications must apply f "
+     "exactly once to the addressed values; point objects must round-trip in short and long text.",
+     _NOTE + " vlib/kgspec.py (writer in Praat's layout) is part of the trusted base.", "DESIGN.md section 3 C19"),
+    ("C20", "exhaustive small-series enumeration (median filter) + Hypothesis generated series/listings vs textbook re-implementations",
+     "medianFilter is enumerated over all series of length <=6 (thorough 8) over three values x windows 0..8 x padding and on random "
+     "series; z-normalisation, rms, getPitchMeasures, detectPitchErrors, loadTimeSeriesData and the row filters are compared with "
+     "definitions re-implemented in /verif.",
+     _NOTE, "DESIGN.md section 3 C20"),
 ]
 
 PENDING = {}
